@@ -609,6 +609,13 @@ def apply_contract(eng, st, node, con, allow_raise):
     # frame
     mods = eng.parse_mods(con.modifies, pre, None)
     for m, cs in mods:
+        if callable(m):
+            # predicate frame of the callee (e.g. graphs_of(G)): every graph it may write must be writable here
+            if st.writable is not None:
+                gq = z3.Int(fresh_name('fg'))
+                eng.oblige(st, 'frame', z3.ForAll([gq], z3.Implies(m(gq), st.writable(gq, cs))), node,
+                           'callee-%s-modifies' % label, detail='write to a graph outside the modifies clause')
+            continue
         _frame_check(eng, st, m, node, 'callee-%s-modifies' % label, cs)
     before_heap = st.heap
     if con.modifies or getattr(con, 'allocates', False):
